@@ -26,6 +26,13 @@ pub fn check_protocol(trace: &[TraceOp], out: &mut RunOut) {
     let mut stacks: HashMap<String, Vec<bool>> = HashMap::new();
     let mut reader_thread: HashMap<String, String> = HashMap::new();
     let mut cancelled: HashMap<String, bool> = HashMap::new();
+    // local cancellation must not be lost: after `cancel()` has returned, the handle may enter at
+    // most `slack` further bodies outside fixpoint execution before its outermost call ends
+    let mut cancel_effective: HashMap<String, u32> = HashMap::new();
+    let mut in_request: HashMap<String, bool> = HashMap::new();
+    let mut iterating: HashMap<String, bool> = HashMap::new();
+    let mut on_clone: HashMap<String, bool> = HashMap::new();
+    let mut must_unwind: HashMap<String, bool> = HashMap::new();
     let depends_on = |edges: &HashMap<String, (String, String)>, from: &str, to: &str| -> bool {
         let mut p = from.to_string();
         let mut n = 0;
@@ -114,12 +121,58 @@ pub fn check_protocol(trace: &[TraceOp], out: &mut RunOut) {
                     "user_panic" => {
                         unwinding_panic.insert(by.clone(), true);
                     }
-                    "enter:fix" => stacks.entry(by.clone()).or_default().push(true),
-                    "enter:other" => stacks.entry(by.clone()).or_default().push(false),
+                    "check" => {
+                        // a cancellation check made after cancel() returned, outside fixpoint
+                        // execution and on the handle's own token, must unwind
+                        let st = stacks.entry(by.clone()).or_default();
+                        let inside_fixpoint = st.iter().any(|f| *f);
+                        if must_unwind.get(by).copied().unwrap_or(false) {
+                            out.viol("local_cancellation_lost", i, format!("{by} makes another tracked-function request although cancel() on its token had returned before its previous request outside fixpoint iteration"));
+                            must_unwind.remove(by);
+                            cancel_effective.remove(by);
+                        } else if cancel_effective.contains_key(by) && !inside_fixpoint && !on_clone.get(by).copied().unwrap_or(false) && in_request.get(by).copied().unwrap_or(false) {
+                            must_unwind.insert(by.clone(), true);
+                            out.bump("proto_cancel_checks_expected_to_unwind");
+                        }
+                    }
+                    "iterate" => {
+                        iterating.insert(by.clone(), true);
+                    }
+                    "enter:fix" | "enter:other" => {
+                        let st = stacks.entry(by.clone()).or_default();
+                        // the next iteration of a cycle head is still fixpoint iteration
+                        let continuing = iterating.remove(by).unwrap_or(false);
+                        let inside_fixpoint = continuing || st.iter().any(|f| *f);
+                        if must_unwind.get(by).copied().unwrap_or(false) {
+                            out.viol("local_cancellation_lost", i, format!("{by} executes a tracked function although cancel() on its token had returned before its last cancellation check outside fixpoint iteration"));
+                            must_unwind.remove(by);
+                            cancel_effective.remove(by);
+                        }
+                        let _ = inside_fixpoint;
+                        st.push(what == "enter:fix");
+                    }
+                    "request_start" => {
+                        in_request.insert(by.clone(), true);
+                    }
+                    "request_start:clone" => {
+                        // runs on a clone of the handle, which has its own token
+                        on_clone.insert(by.clone(), true);
+                    }
                     "exit" => {
-                        stacks.entry(by.clone()).or_default().pop();
+                        let st = stacks.entry(by.clone()).or_default();
+                        st.pop();
+                        if st.is_empty() {
+                            // the outermost call returns: the token is reset
+                            cancel_effective.remove(by);
+                            must_unwind.remove(by);
+                        }
                     }
                     "request_end" => {
+                        in_request.insert(by.clone(), false);
+                        if !on_clone.remove(by).unwrap_or(false) {
+                            cancel_effective.remove(by);
+                            must_unwind.remove(by);
+                        }
                         unwinding_panic.insert(by.clone(), false);
                         stacks.remove(by);
                         // the token is reset when the outermost call returns or unwinds
@@ -130,6 +183,18 @@ pub fn check_protocol(trace: &[TraceOp], out: &mut RunOut) {
                         unwinding_panic.insert(by.clone(), false);
                         stacks.remove(by);
                         cancelled.insert(by.clone(), false);
+                    }
+                    w if w.starts_with("cancelled:") => {
+                        if let Some(t) = reader_thread.get(&w["cancelled:".len()..]) {
+                            // only cancels that arrive while the handle is inside a tracked function
+                            // body are followed: between two outermost calls any attach scope that
+                            // ends (a field getter, for instance) resets the token, and the harness
+                            // cannot see those
+                            if stacks.get(t).is_some_and(|s| !s.is_empty()) {
+                                cancel_effective.insert(t.clone(), 0);
+                            }
+                            out.bump("proto_cancels_tracked");
+                        }
                     }
                     w if w.starts_with("cancel:") => {
                         if let Some(t) = reader_thread.get(&w["cancel:".len()..]) {
